@@ -239,12 +239,14 @@ def run(prop, tier="quick", seed=0, replay_path=None):
     for ob in obs:
         if ob.id in alt_ok or ob.meta.get("alt_of"):
             continue
-        if ob.expect == "unsat" and results[ob.id].status == "unknown" and hasattr(mod, "replay") and not ob.model_vars \
-                and getattr(mod, "REPLAY_UNDECIDED", False):
+        # an obligation re-established for a callee property (dep:<ID>) is replayed by that property's module
+        rmod = importlib.import_module("contracts." + ob.meta["dep"].lower()) if ob.meta.get("dep") else mod
+        if ob.expect == "unsat" and results[ob.id].status == "unknown" and hasattr(rmod, "replay") and not ob.model_vars \
+                and getattr(rmod, "REPLAY_UNDECIDED", False):
             # no symbolic inputs to search: ask the module's bounded replay whether the real code violates the clause
             import types
             try:
-                rep = mod.replay(ob, types.SimpleNamespace(model={}))
+                rep = rmod.replay(ob, types.SimpleNamespace(model={}))
             except Exception:
                 rep = None
             if rep and rep.get("reproduced"):
